@@ -8,6 +8,7 @@ import (
 	"fmt"
 	"sort"
 	"sync"
+	"sync/atomic"
 	"time"
 
 	"github.com/cnotch/ipchub/provider/route"
@@ -19,6 +20,7 @@ import (
 // 全局变量
 var (
 	streams     sync.Map            // 流媒体集合 string->*Stream
+	registLock  sync.Mutex          // 使注册/取消注册的"读取-修改"成为原子操作
 	psFactories []PullStreamFactory // 拉流工厂
 )
 
@@ -41,13 +43,16 @@ func RegistPullStreamFactory(f PullStreamFactory) {
 // Regist 注册流
 func Regist(s *Stream) {
 	// 获取同 path 的现有流
+	registLock.Lock()
 	oldSI, ok := streams.Load(s.path)
 	if s == oldSI { // 如果是同一个源
+		registLock.Unlock()
 		return
 	}
 
 	// 设置新流
 	streams.Store(s.path, s)
+	registLock.Unlock()
 
 	// 如果存在旧流
 	if ok {
@@ -62,6 +67,7 @@ func Regist(s *Stream) {
 
 // Unregist 取消注册
 func Unregist(s *Stream) {
+	registLock.Lock()
 	si, ok := streams.Load(s.path)
 	if ok {
 		s2 := si.(*Stream)
@@ -69,6 +75,7 @@ func Unregist(s *Stream) {
 			streams.Delete(s.path)
 		}
 	}
+	registLock.Unlock()
 	s.Close()
 }
 
@@ -88,7 +95,9 @@ func Get(path string) *Stream {
 
 	si, ok := streams.Load(path)
 	if ok {
-		return si.(*Stream)
+		if s := si.(*Stream); atomic.LoadInt32(&s.status) == StreamOK { // 已关闭的流不再对外可见
+			return s
+		}
 	}
 	return nil
 }
@@ -133,6 +142,9 @@ func GetOrCreate(path string) *Stream {
 func Count() (sc, cc int) {
 	streams.Range(func(key, value interface{}) bool {
 		s := value.(*Stream)
+		if atomic.LoadInt32(&s.status) != StreamOK { // 已关闭但尚未取消注册
+			return true
+		}
 		sc++
 		cc += s.ConsumerCount()
 		return true
@@ -146,6 +158,9 @@ func Infos(pagetoken string, pagesize int, includeCS bool) (int, []*StreamInfo) 
 
 	streams.Range(func(key, value interface{}) bool {
 		s := value.(*Stream)
+		if atomic.LoadInt32(&s.status) != StreamOK { // 已关闭但尚未取消注册
+			return true
+		}
 		rtp[s.Path()] = s.Info(includeCS)
 		return true
 	})
